@@ -107,6 +107,16 @@ func vstubNextData() (*astits.DemuxerData, error) {
 
 func vstubRewind() (int64, error) { vtsPos = 0; return 0, nil }
 
+// vpmtData: a PMT announcing the given PIDs as teletext elementary streams.
+func vpmtData(pids ...uint16) *astits.DemuxerData {
+	pmt := &astits.PMTData{}
+	for _, pid := range pids {
+		pmt.ElementaryStreams = append(pmt.ElementaryStreams, &astits.PMTElementaryStream{ElementaryPID: pid, StreamType: astits.StreamTypePrivateData,
+			ElementaryStreamDescriptors: []*astits.Descriptor{{Tag: astits.DescriptorTagTeletext}}})
+	}
+	return &astits.DemuxerData{PMT: pmt}
+}
+
 func vpesData(pid uint16, pts int64, payload []byte) *astits.DemuxerData {
 	return &astits.DemuxerData{PID: pid, PES: &astits.PESData{Data: payload, Header: &astits.PESHeader{StreamID: astits.StreamIDPrivateStream1,
 		OptionalHeader: &astits.PESOptionalHeader{PTS: &astits.ClockReference{Base: pts}}}}}
@@ -291,12 +301,28 @@ func vtsBytes() []byte {
 	m := astits.NewMuxer(context.Background(), &buf)
 	seen := map[uint16]bool{}
 	first := true
+	// elementary streams a PMT item of the sequence announces as teletext get the teletext descriptor
+	tele := map[uint16]bool{}
+	for _, d := range vtsData {
+		if d != nil && d.PMT != nil {
+			for _, es := range d.PMT.ElementaryStreams {
+				if len(es.ElementaryStreamDescriptors) > 0 {
+					tele[es.ElementaryPID] = true
+				}
+			}
+		}
+	}
 	for _, d := range vtsData {
 		if d == nil || d.PES == nil || seen[d.PID] {
 			continue
 		}
 		seen[d.PID] = true
-		m.AddElementaryStream(astits.PMTElementaryStream{ElementaryPID: d.PID, StreamType: astits.StreamTypePrivateData})
+		es := astits.PMTElementaryStream{ElementaryPID: d.PID, StreamType: astits.StreamTypePrivateData}
+		if tele[d.PID] {
+			es.ElementaryStreamDescriptors = []*astits.Descriptor{{Length: 5, Tag: astits.DescriptorTagTeletext, Teletext: &astits.DescriptorTeletext{Items: []*astits.DescriptorTeletextItem{
+				{Language: []byte("eng"), Magazine: 0, Page: 0x88, Type: astits.TeletextTypeTeletextSubtitlePage}}}}}
+		}
+		m.AddElementaryStream(es)
 		if first {
 			m.SetPCRPID(d.PID)
 			first = false
